@@ -48,22 +48,22 @@ def local_defs(fn):
                                 len(s.value.elts) == len(t.elts) else s.value
                             defs.setdefault(el.id, []).append(v)
         elif isinstance(s, (ast.For, ast.comprehension)):   # loop statements and comprehension generators alike
-            names = [n for n in ast.walk(s.target) if isinstance(n, ast.Name)]
-            it = s.iter
-            if isinstance(it, ast.Call) and norm(it.func) == "zip" and isinstance(s.target, ast.Tuple) and \
-                    len(it.args) == len(s.target.elts):
-                for el, a in zip(s.target.elts, it.args):
-                    if isinstance(el, ast.Name):
-                        defs.setdefault(el.id, []).append(a)
-            elif isinstance(it, ast.Call) and norm(it.func) == "enumerate" and isinstance(s.target, ast.Tuple) and \
-                    len(s.target.elts) == 2 and it.args:
-                if isinstance(s.target.elts[1], ast.Name):
-                    defs.setdefault(s.target.elts[1].id, []).append(it.args[0])
-                if isinstance(s.target.elts[0], ast.Name):
-                    defs.setdefault(s.target.elts[0].id, []).append(ast.Constant(value=0))
-            else:
-                for n in names:
-                    defs.setdefault(n.id, []).append(it)
+            def bind_elem(target, seq):
+                """`target` receives one element of the sequence expression `seq`."""
+                if isinstance(seq, ast.Call) and norm(seq.func) == "enumerate" and seq.args and \
+                        isinstance(target, ast.Tuple) and len(target.elts) == 2:
+                    if isinstance(target.elts[0], ast.Name):
+                        defs.setdefault(target.elts[0].id, []).append(ast.Constant(value=0))
+                    bind_elem(target.elts[1], seq.args[0])
+                elif isinstance(seq, ast.Call) and norm(seq.func) == "zip" and isinstance(target, ast.Tuple) and \
+                        len(seq.args) == len(target.elts):
+                    for el, a in zip(target.elts, seq.args):
+                        bind_elem(el, a)
+                else:
+                    for n in ast.walk(target):
+                        if isinstance(n, ast.Name):
+                            defs.setdefault(n.id, []).append(seq)
+            bind_elem(s.target, s.iter)
     return defs
 
 
@@ -195,16 +195,24 @@ def rule_dispatch(rep, repo, f):
     defs = local_defs(f.node)
     # which names are positions / atomic numbers?
     position, number = set(), set()
+    def classify(target, seq):
+        """Loop targets that are the atom's position / its atomic number, through enumerate / zip nesting."""
+        if isinstance(seq, ast.Call) and norm(seq.func) == "enumerate" and seq.args and isinstance(target, ast.Tuple) \
+                and len(target.elts) == 2:
+            if isinstance(target.elts[0], ast.Name):
+                position.add(target.elts[0].id)
+            classify(target.elts[1], seq.args[0])
+        elif isinstance(seq, ast.Call) and norm(seq.func) == "zip" and isinstance(target, ast.Tuple) and \
+                len(seq.args) == len(target.elts):
+            for el, a in zip(target.elts, seq.args):
+                classify(el, a)
+        elif isinstance(seq, ast.Call) and norm(seq.func) == "range":
+            position.update(n.id for n in ast.walk(target) if isinstance(n, ast.Name))
+        elif norm(seq) == "atnums" and isinstance(target, ast.Name):
+            number.add(target.id)
     for s in ast.walk(f.node):
-        if isinstance(s, ast.For):
-            it = norm(s.iter)
-            if it.startswith("range("):
-                position |= {n.id for n in ast.walk(s.target) if isinstance(n, ast.Name)}
-            elif it.startswith("enumerate(atnums") and isinstance(s.target, ast.Tuple):
-                position.add(norm(s.target.elts[0]))
-                number.add(norm(s.target.elts[1]))
-            elif it.startswith("zip(atnums") and isinstance(s.target, ast.Tuple):
-                number.add(norm(s.target.elts[0]))
+        if isinstance(s, (ast.For, ast.comprehension)):
+            classify(s.target, s.iter)
     for name, vals in defs.items():
         if any(norm(v) in {f"atnums[{p}]" for p in position} for v in vals):
             number.add(name)
@@ -574,6 +582,6 @@ def run(tier="quick", root="/repo", evidence_dir=None, quiet=False):
     # R6: per-atom sequences are addressed in the index space of the atoms (no permutation applied twice,
     # no counter of a selection used on the full list)
     from gridlint import e9
-    rep.attempt(e9.rule_index_spaces, rep, repo, ("molgrid",), "R6.index-space", 8)
+    rep.attempt(e9.rule_index_spaces, rep, repo, ("molgrid",), "R6.index-space", 2)
     rep.extra["source_digest"] = repo.digest(["molgrid", "atomgrid"])
     return rep.finish(evidence_dir=evidence_dir, quiet=quiet)
